@@ -101,8 +101,35 @@ class ReissueMonitor(SS.Monitor):
             self.sim.k.log(ev="reissue_plan", want=[list(map(list, w)) for w in self.want])
 
 
+class RoundTripProbe(SS.Monitor):
+    """Search guidance only (never a verdict): remembers the steps after which some value written to
+    restart.toml does not read back to exactly the in-memory value, so that a stop can be placed there."""
+
+    def __init__(self):
+        self.steps = []
+
+    def post_treat(self, md):
+        import numpy as np
+        st = self.sim.state
+        cur = st.config["current"]
+        bad = False
+        for key, strs in cur.get("frac", {}).items():
+            mem = st.traj_data.get(int(key))
+            if mem is None:
+                continue
+            back = np.array(strs, dtype="longdouble")
+            if not np.array_equal(back, np.asarray(mem["frac"], dtype="longdouble")):
+                bad = True
+        if bad:
+            self.steps.append(int(st.cstep))
+            self.sim.k.probe("inexact_restart_value_seen")
+
+    def summary(self):
+        return {"inexact_steps": self.steps[:20]}
+
+
 def _mon(case, inc):
-    return [ReissueMonitor()]
+    return [ReissueMonitor(), RoundTripProbe()]
 
 
 def _strip(path):
@@ -156,6 +183,19 @@ def run(case):
                 ref_plan = [{"steps": cuts[0]}, {"steps": N}]
             rA = SS.run_case(_hist(case, ref_plan), _mon, keep_dir=True)
             dirs.append(rA["rundir"])
+            # guided search: if the reference run saw a value that does not survive the restart file
+            # exactly, stop right after that step (the verdict stays byte equality of the outputs)
+            hot = [s_ for m in (rA.get("mon") or {}).values()
+                   for s_ in (m.get("RoundTripProbe") or {}).get("inexact_steps", []) if 0 < s_ < N]
+            if hot and case.get("decisions") is None and not case.get("no_guidance"):
+                first = min(hot)
+                if scn["allowmaxlength"]:
+                    cuts = [first]
+                    chain = [{"steps": first}, {"steps": N}]
+                elif first > cuts[0]:
+                    cuts = [cuts[0], first]
+                    chain = [{"steps": k} for k in cuts] + [{"steps": N}]
+                case["cp"]["cuts"] = cuts
             rB = SS.run_case(_hist(case, chain), _mon, keep_dir=True)
             dirs.append(rB["rundir"])
             viol = rA["violations"] + rB["violations"]
